@@ -218,10 +218,12 @@ func Compile(src string, cfg g.SimulatorConfig) compileResult {
 		}()
 		r.W, r.Err = g.CompileWarrior(strings.NewReader(src), cfg)
 	}()
+	timer := time.NewTimer(30 * time.Second)
+	defer timer.Stop() // (time.After would keep every timer alive for its whole period)
 	select {
 	case r := <-done:
 		return r
-	case <-time.After(30 * time.Second):
+	case <-timer.C:
 		return compileResult{Hung: true}
 	}
 }
